@@ -61,6 +61,81 @@ def codec_attrs(an, fn, which):
     return out
 
 
+def check_container_items_encoded(ctx):
+    """Typed containers convert *every* item through the item field's codec whenever the item field is a Field: the
+    functions are specialised for "typed, non-empty, item field is a Field" and everything they can return on the
+    feasible paths has to be built from per-item codec calls.  (The item codec is where secrets are encrypted, bytes
+    encoded, digests rendered: a shortcut around it writes the in-memory form.)"""
+    from engine.specialize import Spec
+    an, model = ctx.an, ctx.model
+    for cname, which, attrs in (("ListField", "to_basic", ("field",)), ("ListField", "to_python", ("field",)),
+                                ("DictField", "to_basic", ("key_field", "value_field")), ("DictField", "to_python", ("key_field", "value_field"))):
+        f = model.method(cname, which)
+        vp = f.positional_params[2]
+        ft = an.ft(f)
+
+        def is_value(e, node):
+            if not isinstance(e, ast.Name):
+                return False
+            srcs = value_sources(f, e, node)
+            return bool(srcs) and all(k == "param" and p == vp for k, p in srcs)
+
+        def is_item_field(e):
+            return isinstance(e, ast.Attribute) and e.attr in ("field", "key_field", "value_field", "_use_proxy") and isinstance(e.value, ast.Name) \
+                and e.value.id == f.self_name
+
+        def decide(e, node):
+            if is_value(e, node):
+                return True                 # non-empty
+            if isinstance(e, ast.Compare) and len(e.ops) == 1 and isinstance(e.comparators[0], ast.Constant) and e.comparators[0].value is None:
+                if is_value(e.left, node) or is_item_field(e.left):
+                    return isinstance(e.ops[0], (ast.IsNot, ast.NotEq))
+            if is_item_field(e):
+                return True
+            if isinstance(e, ast.Call) and isinstance(e.func, ast.Name) and e.func.id == "isinstance" and len(e.args) == 2:
+                spec = ft.class_spec(e.args[1], {}) or []
+                if is_item_field(e.args[0]) and spec:
+                    return any(c_ in ("Field", "BaseField") for c_ in spec)      # a plain Field: not a Schema, not AnyField
+                if is_value(e.args[0], node) and spec:
+                    want = "list" if cname == "ListField" else "dict"
+                    return want in spec or (want == "list" and "ListProxy" in spec) or (want == "dict" and "DictProxy" in spec)
+            if isinstance(e, ast.Call) and isinstance(e.func, ast.Name) and e.func.id == "isconfigtype" and e.args and is_item_field(e.args[0]):
+                return False
+            return None
+        sp = Spec(an, f, decide)
+        rets = sp.normal_returns()
+        ctx.need(bool(rets), "%s.%s: no return reachable for a typed, non-empty container" % (cname, which))
+        for r in rets:
+            missing = []
+            exprs = [p for k, p in sp.sources(r.ast.value, r) if k == "expr"] if r.ast.value is not None else []
+            # a proxy constructor wraps the converted data: look through its arguments
+            todo, seen, leaves = list(exprs), set(), []
+            while todo:
+                e = todo.pop()
+                if id(e) in seen:
+                    continue
+                seen.add(id(e))
+                leaves.append(e)
+                if isinstance(e, ast.Call):
+                    for a in e.args:
+                        if isinstance(a, ast.Name):
+                            todo += [p for k, p in sp.sources(a, sp.where.get(id(e)) or r) if k == "expr"]
+            for attr in attrs:
+                hit = False
+                for e in leaves:
+                    for x in ast.walk(e):
+                        if isinstance(x, ast.Call) and isinstance(x.func, ast.Attribute) and x.func.attr == which and isinstance(x.func.value, ast.Attribute) \
+                                and x.func.value.attr == attr and isinstance(x.func.value.value, ast.Name) and x.func.value.value.id == f.self_name:
+                            hit = True
+                if not hit:
+                    missing.append(attr)
+            ctx.ob("container.items-through-codec", f, r.ast, not missing,
+                   "every item goes through self.%s.%s" % ("/".join(attrs), which) if not missing else
+                   "%s.%s can return %s without applying self.%s.%s to the items: secrets, bytes and digests inside the container are "
+                   "%s in their in-memory form" % (cname, which, ast.unparse(r.ast.value)[:40], missing[0], which,
+                                                  "written" if which == "to_basic" else "kept"), node=r)
+
+
 def alias_names(fn, expr, node, _depth=0):
     """Local names the value of expr may be held under (through plain name-to-name copies)."""
     from engine.defuse import reaching_defs
@@ -146,6 +221,7 @@ def check(ctx):
 
     # ---------------------------------------------------------------- C02.3
     check_links(ctx, "link")
+    check_container_items_encoded(ctx)
 
     # ---------------------------------------------------------------- C02.6 "in every format": the format wiring decided
     # under C04 (tag tables, payload written and read verbatim, root key / root tag symmetry, wrapper pairs) is a
